@@ -30,7 +30,7 @@ var c20Targets = []vfOp{
 	{K: "readat", H: 0, Off: 1, N: 3}, {K: "readat", H: 0, Off: 0, N: 14}, {K: "read", H: 0, N: 9},
 	{K: "writeat", H: 2, Off: 0, N: 3}, {K: "writeat", H: 2, Off: 2, N: 11}, {K: "write", H: 2, N: 9},
 	{K: "writeto", H: 0}, {K: "readfrom", H: 2, N: 10, S: "0,0,-1,0"}, {K: "readfromc", H: 2, N: 10, A: 3, S: "4,0,-1,0"},
-	{K: "mkdir", P: "/newdir"}, {K: "remove", P: "/a"}, {K: "rmdir", P: "/dir"}, {K: "rename", P: "/a", P2: "/b"},
+	{K: "mkdir", P: "/newdir"}, {K: "remove", P: "/a"}, {K: "remove", P: "/dir"}, {K: "rmdir", P: "/dir"}, {K: "rename", P: "/a", P2: "/b"},
 	{K: "posixrename", P: "/a", P2: "/b"}, {K: "symlink", P: "/s", P2: "/a"}, {K: "link", P: "/a", P2: "/h"},
 	{K: "chtimes", P: "/a", A: 1000, B: 2000}, {K: "cchmod", P: "/a", A: 0o600}, {K: "ctruncate", P: "/a", Off: 3},
 	{K: "truncate", H: 2, Off: 2}, {K: "chmod", H: 2, A: 0o640}, {K: "getwd"}, {K: "seek", H: 0, Off: -1, A: 2}, {K: "sync", H: 2},
